@@ -218,6 +218,52 @@ PROPS["C05"] = {
     "thorough": {"cases": 600000, "floor": 100000, "time_budget": 3000},
 }
 
+PROPS["C08"] = {
+    "worker": "c08", "variant": "chk", "level": "fault_enumeration",
+    "rule": ("case = small image (2/3 multi-frame with ReferenceOnly frames, reference slots, crops and all blend modes; 1/3 single-frame "
+             "Modular). A clean decode+render counts the tracked allocation points N (hook H1). For every k in 0..N (all points when "
+             "N <= 60 in quick / 400 in thorough, else that many stratified points): fresh image, the k-th and every later tracked "
+             "allocation fails; script A renders every keyframe, script B makes 1..3 more calls under the fault (render again, other "
+             "keyframe, set_image_region full/partial, render_loading_frame), then the fault is lifted and script C renders every keyframe "
+             "twice (optionally after re-requesting the full region). Each scenario runs in its own thread; hook H2's protocol monitor gives "
+             "a logical wedge verdict (a frame left in state Rendering by a call that returned; a caller waiting on it) - no wall clock. "
+             "Oracle: every call returns; no panic; every Ok render of the full region is bit-identical to the never-failed render; nothing "
+             "outstanding in the tracker after drop. signature = (image class, allocation-count class); evaluations = images, observed "
+             "fault_points_run / scenarios = fault points actually executed"),
+    "assumptions": [
+        "faults are injected at tracked allocations only (AllocTracker::alloc); untracked Vec allocations cannot be failed without aborting",
+        "pool none (callers are the only threads); concurrent callers are C20's business",
+        "corrupt-group and missing-reference faults are not injected yet",
+        "a generous 60 s wall-clock watchdog per scenario yields 'inconclusive', never a violation",
+    ],
+    "level_text": ("fault enumeration: every tracked allocation point of each explored image's decode+render is failed once (exhaustively "
+                   "for images with <= 60/400 points), with follow-up call sequences and recovery; wedges are decided logically from hook events"),
+    "level_note": "trusted: hooks H1/H2 (add-only, pass-through), monitor.rs orphan logic, generators",
+    "technique": "fault injection at every tracked allocation + protocol-event monitor (logical wedge detection) + differential re-render",
+    "quick": {"cases": 700, "floor": 100, "time_budget": 240},
+    "thorough": {"cases": 30000, "floor": 4000, "time_budget": 3000},
+}
+
+PROPS["C13"] = {
+    "worker": "c13", "variant": "chk", "level": "exploration",
+    "rule": ("case = one AllocTracker with a limit from {0, 1, tiny, small, medium, 128 MiB, ample} shared by a chain of 1..4 (5%: 20..120) "
+             "successive images (valid single-/multi-frame Modular streams, 1/4 byte-mutated), each driven by a random script (read, render "
+             "keyframes, image_all_channels, set_image_region, render_loading_frame) under pool none or rayon(3), limit expanded/shrunk "
+             "between images; every object dropped. Monitor (hook H1): shadow outstanding bytes <= shadow total limit after every "
+             "successful alloc; at quiescence outstanding == 0, real budget == total limit, and the public shrink_limit(total) succeeds. "
+             "Exhaustion must surface as Err (a panic/abort is attributed by the supervisor). signature = (limit class, image kinds, "
+             "outcome set, pool, chain length class); non-trivial iff >= 1 tracked allocation was attempted"),
+    "assumptions": [
+        "only tracked allocations are accounted; hostile streams here are byte mutations of valid ones (value-level hostility is C01's corpus)",
+        "JPEG reconstruction scripts are not part of the chains yet",
+    ],
+    "level_text": "exploration: thousands of (image chain, limit, script) triples per run with an online accounting monitor",
+    "level_note": "trusted: hook H1 shadow counters (updated in the same call as the budget), c13.rs",
+    "technique": "online invariant monitor on hooked allocator state + quiescence checks through the public API",
+    "quick": {"cases": 5000, "floor": 800, "time_budget": 240},
+    "thorough": {"cases": 300000, "floor": 50000, "time_budget": 3000},
+}
+
 ALL = ["C%02d" % i for i in range(1, 21)]
-HOOK_COMMITS = ["27cc801"]
+HOOK_COMMITS = ["27cc801", "8f68576", "99816ae", "c29f982"]
 NOT_APPLICABLE = {p: "check not built yet in this session (work in progress; see DESIGN.md section 9 for order)" for p in ALL if p not in PROPS}
